@@ -104,7 +104,8 @@ pub fn specs(tier: &str) -> Vec<ExpSpec> {
     let mut v = Vec::new();
     for ft in [FatType::Fat12, FatType::Fat16, FatType::Fat32] {
         let cfg = vol::tiny_with(ft, 7, 16);
-        v.push(ExpSpec::new(cfg.clone(), alphabet(512), if th { 8 } else { 5 }));
+        // (FAT32 in the quick tier: one level less here, its seven information-sector variants below run at depth 3-4)
+        v.push(ExpSpec::new(cfg.clone(), alphabet(512), if th { 8 } else if ft == FatType::Fat32 { 4 } else { 5 }));
         // full volume whose next-free hint sits in the middle, just above the cluster that the explored history
         // frees first: the allocation scan has to fail at the end and wrap around to the clusters below the hint
         let mut c2 = cfg.clone();
@@ -140,7 +141,9 @@ pub fn specs(tier: &str) -> Vec<ExpSpec> {
                 ("hint-last+2", None, Some(last + 2)),
             ];
             for (n, f, h) in variants {
-                v.push(ExpSpec::new(patched(&cfg, n, f, h), alphabet(512), if th { 6 } else { 4 }));
+                // (unknown / impossible counts make every statistics call recount the whole table: one level less)
+                let d = if th { 6 } else if f.is_some() { 3 } else { 4 };
+                v.push(ExpSpec::new(patched(&cfg, n, f, h), alphabet(512), d));
             }
             // marked dirty (the previous session was not unmounted) with an in-range but wrong count in the
             // information sector: the count must not be trusted
